@@ -34,8 +34,9 @@ theorem R_setQueue {b : B} {s : Spec.Broker.S} (h : R b s) {c : Nat} {cn : Conn}
     (Mqtt.Proofs.Broker.Inv_setSess b _ h.inv)
     (Mqtt.Proofs.BrokerLife.inv_setSess h.linv hσ rfl rfl (h.linv.wills _ σ hσ))
     (Mqtt.Proofs.BrokerQos.BInv.setSess h.qinv (s := σ) hσ hq)
-    rfl rfl rfl rfl rfl rfl h.held h.heldGood h.owners (fun _ _ => rfl) rfl rfl rfl
-    (show k.id = c from Mqtt.Proofs.BrokerQos.spec_getConn_id hk) rfl ?_
+    rfl rfl rfl rfl rfl rfl h.held h.heldGood h.owners (fun _ _ => rfl) rfl rfl
+    (spec_setConn_nodup s _ h.sconns)
+    (spec_getConn_setConn_if s _ c (show k.id = c from Mqtt.Proofs.BrokerQos.spec_getConn_id hk)) rfl ?_
   exact ⟨hrel.cid, hrel.clean, hrel.willFlag, hrel.will, hrel.willOk, rfl, hqok, hrel.topics, hrel.store⟩
 
 theorem mem_q2Wait {q : List QEntry} {p : Pub} {e : QEntry} (h : e ∈ q2Wait q p) : e ∈ q ∨ e.msg = p := by
